@@ -11,7 +11,7 @@ ID = "C16"
 OPT_QUICK_ALL = True      # every partition also in a child interpreter started with -O
 LEVEL = "model_checking"
 TECHNIQUE = "explicit enumeration of all attach / re-attach histories (bounded length) over simulated targets of every peripheral device type and qualifier on both transports, judged by a device-type -> command-set reference table and a differential comparison with a fresh facade"
-RULE = ("depth 1: all 32 peripheral device types x 8 qualifiers x {SG_IO, iSCSI} x {SCSI(dev), facade(dev) re-attach}; all 32 types x every single bit of INQUIRY bytes 1-7 and 56 set (the selection may depend on the device type only); histories: all sequences of "
+RULE = ("depth 1: all 32 peripheral device types x 8 qualifiers x {SG_IO, iSCSI} x {SCSI(dev), facade(dev) re-attach}; all 32 types x attach made from an except block / a finally block during propagation / a generator resumed by throw() (first attach and re-attach); all 32 types x every single bit of INQUIRY bytes 1-7 and 56 set (the selection may depend on the device type only); histories: all sequences of "
         "length <= 3 over device types {00,01,03,04,05,07,08,0E,1F} (9^1+9^2+9^3 per transport, mixing transports at the second step), "
         "first step by construction, later steps by calling the same facade; every history of length 2-3 also with one earlier attach refused by its device (CHECK CONDITION / BUSY to the INQUIRY): it fails and the following attaches are judged as usual. all 32 types x 5 previous sets on a device object that logs every assignment to .opcodes (the set changes in one step, no transient other set). states = distinct (facade device, per-device command set) "
         "configurations; transitions = attach events. Non-trivial = history has a re-attach or a type other than 00.")
@@ -67,6 +67,38 @@ def set_id(dev):
     return "other"
 
 
+def attach_in(ctx, fn):
+    """perform the attach fn() in the caller's situation ctx: 0 plainly; 1 inside an except block (a fallback after something else
+    failed); 2 inside a finally block while an unrelated exception is propagating; 3 inside a generator resumed by throw()"""
+    if ctx == 0:
+        return fn()
+    if ctx == 1:
+        try:
+            raise KeyError("first choice of device not configured")
+        except KeyError:
+            return fn()
+    if ctx == 2:
+        box = []
+        try:
+            try:
+                raise TimeoutError("something unrelated")
+            finally:
+                box.append(fn())
+        except TimeoutError:
+            pass
+        return box[0]
+    if ctx == 3:
+        def gen():
+            try:
+                yield 0
+            except OSError:
+                yield fn()
+        g = gen()
+        next(g)
+        return g.throw(OSError("unrelated"))
+    raise ValueError(ctx)
+
+
 def run_case(case, obs=None):
     install.ensure()
     from pyscsi.pyscsi.scsi import SCSI
@@ -101,10 +133,14 @@ def run_case(case, obs=None):
             rigs.append(rig)
             n0 = len(rig.target.log)
             prev = [(r.dev, set_id(r.dev), getattr(r.dev, "devicetype", None)) for r in rigs[:-1]]
+            ctx = step[5] if len(step) > 5 else 0
+            if ctx:
+                where += " (attach made %s)" % {1: "inside an except block", 2: "inside a finally block while an unrelated exception propagates",
+                                                 3: "inside a generator resumed by throw()"}[ctx]
             if s is None:
-                s = SCSI(rig.dev)
+                s = attach_in(ctx, lambda: SCSI(rig.dev))
             else:
-                s(rig.dev)
+                attach_in(ctx, lambda: s(rig.dev))
             if s.device is not rig.dev:
                 out.append(("facade_device", "%s: facade not bound to the new device" % where))
             out += check_device(rig.dev, dtype, rig.target, where, n0)
@@ -244,6 +280,10 @@ def run_partition(part, tier, seed):
                     do([(tr, dtype, 0, {byte: 1 << bit})])
             do([(tr, dtype, 0, {1: 0xFF, 2: 0xFF, 3: 0xFF, 5: 0xFF, 6: 0xFF, 7: 0xFF, 56: 0xFF})])
             do([(tr, 0x08, 0), (tr, dtype, 0, {6: 0x08, 5: 0x80})])
+            # the caller's own situation does not matter: attach made from an except block, a finally block, a generator resumed by throw()
+            for ctx in (1, 2, 3):
+                do([(tr, dtype, 0, {}, 0, ctx)])
+                do([(tr, 0x05, 0), (tr, dtype, 0, {}, 0, ctx)])
         return acc
     _, tr, t0 = part
     other = "iscsi" if tr == "sgio" else "sgio"
@@ -258,4 +298,6 @@ def run_partition(part, tier, seed):
                 for pos in range(n - 1):
                     for how in (1, 2):
                         do([(tr, t, 0, {}, how if i == pos else 0) for i, t in enumerate(types)])
+                    # ... and the next attach is the caller's fallback, made from the except block
+                    do([(tr, t, 0, {}, 1 if i == pos else 0, 1 if i == pos + 1 else 0) for i, t in enumerate(types)])
     return acc
